@@ -56,7 +56,7 @@ func c10Applicable(w *muxWorld) []string {
 	for k := range w.regIDs() {
 		ops = append(ops, fmt.Sprintf("die %d remote", k), fmt.Sprintf("die %d local", k))
 		if !w.tcp {
-			ops = append(ops, fmt.Sprintf("die %d stall", k))
+			ops = append(ops, fmt.Sprintf("die %d stall", k), fmt.Sprintf("die %d slowclose", k))
 		}
 	}
 	if !w.cancelled {
@@ -101,6 +101,7 @@ func c10Run(t *testing.T, e *Env, bubble bool, body []string, next func(w *muxWo
 	emit := func(op string) {
 		obs := w.observe()
 		e.Emit(op, obs)
+		e.FlushNow() // a panic in the pool's goroutines kills the process: keep the running script readable from ops.txt
 		ops = append(ops, op)
 		// monitor, clause 1: never more than N live sessions
 		oc, _, os := w.counts()
